@@ -4,7 +4,7 @@ import RpmVerif.Model.ShaWriter
 namespace RpmVerif.Driver.C08
 open RpmVerif.Hdr RpmVerif.Bld RpmVerif.Driver RpmVerif.Driver.Bld RpmVerif.Io
 
-def ops : List String := ["build8", "shaw", "stale8"]
+def ops : List String := ["build8", "shaw", "stale8", "lazy8"]
 
 def tok (m : List String) (k : String) : String :=
   (m.findSome? fun t => if t.startsWith (k ++ "=") then some (t.drop (k.length + 1)).toString else none).getD "<missing>"
@@ -58,6 +58,17 @@ def handle (op : String) (args : List String) (impl : String) : String :=
                else if tok itoks "digests" != "true" then "fails:digests-after-resign" else "holds"
       let _ := r
       answer m v "stale-resign"
+  | "lazy8", _ :: _ :: _ =>
+    -- a signer that reads only part of its input: the recorded header digest is the digest of the written header all the same,
+    -- the digests verify and the (genuine) signature over the header verifies; `hreal` is copied from the observation
+    if !impl.startsWith "ok " then answer "ok" ("fails:" ++ impl) "lazy-signer-rejected" else
+    let itoks := (impl.splitOn " ").filter (· ≠ "")
+    let hreal := tok itoks "hreal"
+    let m := s!"ok hsha={hreal} hreal={hreal} digests=true verify=true"
+    let v := if tok itoks "hsha" != hreal then "fails:header-digest-lazy-signer"
+             else if tok itoks "digests" != "true" then "fails:digests-lazy-signer"
+             else if tok itoks "verify" != "true" then "fails:verify-lazy-signer" else "holds"
+    answer m v "lazy-signer"
   | "build8", _ =>
     match parseReq args with
     | none => badReq "cfg"
